@@ -30,7 +30,8 @@ ARMS = ("canonical", "other_key", "other_msg", "other_suite", "pop_confusion", "
         "doubled", "plus_torsion", "identity", "bitflip", "reencoded", "random_point", "random_bytes")
 _REQ = [f"arm:{a}" for a in ARMS] + ["verdict:True", "verdict:False", "reached_pairing:False-verdict",
                                       "pop_confusion:sequence", "entry:PopVerify", "entry:Verify:basic", "entry:Verify:aug", "entry:Verify:pop",
-                                      "bitflip:flag_bit"]
+                                      "bitflip:flag_bit", "canonical:coordinate_leading_byte=0x1a",
+                                      "canonical:coordinate_leading_byte=0x00"]
 REQUIRED_LABELS = {"quick": _REQ, "thorough": _REQ}
 
 
@@ -135,6 +136,12 @@ def o_verify(ctx, case):
             nt_ = True
     if case.get("flag_bit"):
         ctx.label("bitflip:flag_bit")
+    if want:
+        for w, nm in ((cand[0] & 0x1F, "x_im"), (cand[48], "x_re")):
+            if w == P >> 376:
+                ctx.label("canonical:coordinate_leading_byte=0x1a")
+            if w == 0:
+                ctx.label("canonical:coordinate_leading_byte=0x00")
     if nt_:
         ctx.nontrivial(("v", suite, entry, sk, case["msg"], case["cand"]))
     ctx.sample({k: v for k, v in case.items()}, f"{arm}:{entry}")
@@ -169,6 +176,24 @@ def build(t):
             dst, m = core_context(suite, entry, sk, msg)
             S = B.g2_mul(blssig.hash_point(m, dst), sk)
             detail = "message starts with the signer's public key"
+        elif b % 3 == 1:
+            # walk to a neighbouring key whose canonical signature has a coordinate word in a boundary class
+            # of the 48-byte encoding: leading byte equal to that of p (the valid elements of
+            # [0x1a << 376, p), about 1 signature in 1500) or leading byte zero.  H(m) does not depend on the key for
+            # Verify of the basic and pop suites, so the walk is one point addition per step there.
+            cheap = entry == "Verify" and suite != "aug"
+            cls = "top" if cheap and a % 4 else "zero"
+            hit = (lambda w: w >> 376 == P >> 376) if cls == "top" else (lambda w: w >> 376 == 0)
+            for _ in range(30000 if cheap else 40):
+                if S is not None and (hit(S[0][0]) or hit(S[0][1])):
+                    detail = f"a coordinate word of the signature has leading byte {'0x1a (as p)' if cls == 'top' else '0x00'}"
+                    break
+                sk = sk + 1 if sk + 1 < R else 1
+                if cheap:
+                    S = B.g2_add(S, H) if sk != 1 else H
+                else:
+                    dst, m = core_context(suite, entry, sk, msg)
+                    S = B.g2_mul(blssig.hash_point(m, dst), sk)
         c = B.signature_bytes(S)
     elif arm == "other_key":
         sk2 = [sk - 1, sk + 1, R - sk, 1 + a % (R - 1)][b % 4]
@@ -282,6 +307,8 @@ def t_verify(ctx, shard, nshards, n):
     for i, arm in enumerate(ARMS):
         ex.append(build((sc.SUITES[i % 3], "Verify", R - 1 - i, b"", arm, 12345 + i, i, [5])))
         ex.append(build(("pop", "PopVerify", 2 + i, b"", arm, 999 + i, i + 1, [766])))
+    for i, su in enumerate(("basic", "pop", "basic", "pop")):
+        ex.append(build((su, "Verify", 1000 * i + 11, b"canonical signature %d" % i, "canonical", 1 + i, 1, [3])))
     # long messages whose hashed length sits on a 64 KiB boundary (65488 + 48 key bytes in the augmentation suite)
     for i, (su, L) in enumerate((("basic", 65536), ("aug", 65488), ("pop", 131072))):
         big = bytes((7 * q + i) % 251 for q in range(1024)) * (L // 1024 + 1)
